@@ -12,7 +12,7 @@ RULE = ('each case fixes a group (G1/G2), a relation between A and B (independen
         'Also arbitrary curve points not known as multiples of the generator (for G2: twist points outside the order-r subgroup). '
         'Pairs of distinct points sharing their y-coordinate ((beta*x, y), beta^3 = 1) are a required class. distinct = distinct (group, op, operand triples); non-trivial = neither operand is the identity')
 
-RELATIONS = ['indep', 'equal', 'samereg', 'opposite', 'idA', 'idB', 'outside', 'same-y']
+RELATIONS = ['indep', 'equal', 'samereg', 'opposite', 'idA', 'idB', 'outside', 'same-y', 'h-directed']
 # a primitive cube root of unity of Fq: (beta*x, y) is another curve point with the SAME y (the adder's r = 0, h != 0 case)
 BETA = next(b for b in (pow(g, (q - 1) // 3, q) for g in range(2, 50)) if b != 1)
 
@@ -66,7 +66,25 @@ def run(ctx, spec):
         b = pr.let(g + '.lit', rm.jac_lit(F, S, gen.lam_for(rng, which) if rng.random() < 0.5 else None))[0]
         return pr.let(g + '.add', a, b)[0]
 
-    if rel in ('outside', 'same-y'):
+    if rel == 'h-directed':
+        # two curve points whose x-difference h (squared by the adder with the dedicated squaring routine) is aimed at that routine:
+        # Montgomery quotient digits 0 / 2^64-1 or an unreduced square accumulator on a boundary (G2: h real, so h^2 hits Fq squaring/mul)
+        PA = PB = None
+        for _ in range(200):
+            PA = points.rand_curve_point(rng, which)
+            got = gen.unreduced_square(rng, q) if rng.random() < 0.5 else (gen.mont_digit_square(rng, q), None)
+            if not got:
+                continue
+            h = got[0] if rng.random() < 0.5 else (-got[0]) % q
+            xb = (PA[0] + h) % q if which == 1 else ((PA[0][0] + h) % q, PA[0][1])
+            PB = points.lift_x(which, xb)
+            if PB is not None:
+                break
+        if PB is None:
+            PB = points.rand_curve_point(rng, which)
+        PC = points.rand_curve_point(rng, which)
+        A, B, C = arb(PA, ra), arb(PB, rb), arb(PC, rng.choice(gen.REPS))
+    elif rel in ('outside', 'same-y'):
         if rel == 'same-y' and rng.random() < 0.7:
             PA = rm.gmul(which, gen.scalar_r(rng)[0] or 1)
         else:
